@@ -273,7 +273,7 @@ var wd *world
 
 func run(c Case) (string, *mc.Viol) {
 	wd := wd
-	var firstResp, firstKey, firstRespCopy, firstKeyCopy []byte
+	var firstResp, firstKey, firstRespCopy, firstKeyCopy, hbuf []byte
 	if c.AfterHonest {
 		// a private issuer (same keys and registrations, deterministic name key): it serves an honest
 		// request first; whatever it remembers of that must not let the next request through
@@ -285,8 +285,9 @@ func run(c Case) (string, *mc.Viol) {
 			hc.Mut, hc.Arg, hc.Expect, hc.AfterHonest = "none", 0, "accept", false
 		}
 		hreq, _ := wd.construct(hc)
+		hbuf = append([]byte{}, hreq...)
 		mc.Entropy("c07-eval-honest-first")
-		hresp, hbrk, err := wd.w[c.Issuer].Issuer.Evaluate(hreq)
+		hresp, hbrk, err := wd.w[c.Issuer].Issuer.Evaluate(hbuf)
 		if err != nil {
 			return "honest-first-rejected", &mc.Viol{Sig: "issuer rejects an authentic request: honest-client", What: err.Error()}
 		}
@@ -295,6 +296,12 @@ func run(c Case) (string, *mc.Viol) {
 	}
 	req, st := wd.construct(c)
 	in := mutate(req, c)
+	if hbuf != nil && len(in) <= len(hbuf) {
+		// the issuer's caller receives requests into ONE buffer: this request overwrites the
+		// honest one it has just served
+		copy(hbuf, in)
+		in = hbuf[:len(in)]
+	}
 	mc.Entropy(fmt.Sprintf("c07-eval-%s-%d-%s-%d", c.Build, c.Issuer, c.Mut, c.Arg))
 	var resp, brk []byte
 	var err error
